@@ -640,6 +640,29 @@ impl BackendMap {
         removed
     }
 
+    /// Remove the backend `backend_id` at `backend_address` from `cluster_id`:
+    /// the identity `ConfigState::remove_backend` removes by, so that another
+    /// backend id registered at the same address keeps serving. Returns the
+    /// `backend_id`s that were dropped, like [`Self::remove_backend`].
+    pub fn remove_backend_by_id(
+        &mut self,
+        cluster_id: &str,
+        backend_id: &str,
+        backend_address: &SocketAddr,
+    ) -> Vec<String> {
+        let removed = if let Some(backends) = self.backends.get_mut(cluster_id) {
+            backends.remove_backend_by_id(backend_id, backend_address)
+        } else {
+            error!(
+                "Backend was already removed: cluster id {}, address {:?}",
+                cluster_id, backend_address
+            );
+            return Vec::new();
+        };
+        self.record_cluster_availability(cluster_id);
+        removed
+    }
+
     // TODO: return <Result, BackendError>, log the error downstream
     pub fn close_backend_connection(&mut self, cluster_id: &str, addr: &SocketAddr) {
         if let Some(cluster_backends) = self.backends.get_mut(cluster_id) {
@@ -1036,6 +1059,32 @@ impl BackendList {
         // Rebuild table-based policies (Maglev) off the datapath after the set
         // shrinks, only when something was actually removed. No-op for the
         // stateless policies.
+        if !removed.is_empty() {
+            self.load_balancing.rebuild(&self.backends);
+        }
+        #[cfg(debug_assertions)]
+        self.check_invariants();
+        removed
+    }
+
+    /// Remove the backend that carries both `backend_id` and
+    /// `backend_address` and return the dropped ids. A backend with the same
+    /// address but a distinct id is a separate entry and stays.
+    pub fn remove_backend_by_id(
+        &mut self,
+        backend_id: &str,
+        backend_address: &SocketAddr,
+    ) -> Vec<String> {
+        let mut removed = Vec::new();
+        self.backends.retain(|backend| {
+            let b = backend.borrow();
+            if b.backend_id == backend_id && &b.address == backend_address {
+                removed.push(b.backend_id.clone());
+                false
+            } else {
+                true
+            }
+        });
         if !removed.is_empty() {
             self.load_balancing.rebuild(&self.backends);
         }
